@@ -974,7 +974,7 @@ class Evaluator:
             idmap[lid] = tag + lid
 
         def inst(t):
-            return subst(_rename_ids(t, idmap, tag), bound)
+            return fold_sub(subst(_rename_ids(t, idmap, tag), bound))
 
         top = self.loop_stack[-1] if self.loop_stack else None
         for lid, li in cs.loops.items():
@@ -1186,10 +1186,13 @@ class Summaries:
 
 
 def fold_sub(t):
-    """`(a, b)[0]` -> a, `{k: v}[k]` -> v after a substitution made the container explicit."""
+    """`(a, b)[0]` -> a and `getattr(x, "name")` -> x.name after a substitution made the container / name explicit."""
     if not isinstance(t, tuple) or not t:
         return t
     t = tuple(fold_sub(c) if isinstance(c, tuple) else c for c in t)
+    if t and t[0] == "call" and t[1] == ("builtin", "getattr") and len(t[2]) == 2 and not t[3] and t[2][1][0] == "const" \
+            and isinstance(t[2][1][1], str) and t[2][1][1].isidentifier():
+        return ("attr", t[2][0], t[2][1][1])
     if t and t[0] == "sub" and t[1][0] in ("tuple", "list") and t[2][0] == "const" and isinstance(t[2][1], int) \
             and not isinstance(t[2][1], bool) and -len(t[1][1]) <= t[2][1] < len(t[1][1]) \
             and not any(x[0] == "star" for x in t[1][1]):
